@@ -146,6 +146,13 @@ def run(ctx):
     r14_5(ctx, prog)
     # R14.4 who may construct the not-found errors, and from what
     r14_4(ctx, prog)
+    # R14.6 the iterators walk the tree, and the property speaks about the identifiers of the expression: every word of the source must
+    # have reached the tree builder as its own token, and nothing after it may have been swallowed. That is the second tokenizer
+    # stage's "a word consumes itself, plus the sign and the following word exactly when they were joined into one number" (C06
+    # R6.3/R6.5, decided on all continuations of a word), reported here as well.
+    from rules import toksem
+    from rules.c05 import _Renamed
+    toksem.check_words(_Renamed(ctx, 'R14.6'), prog)
 
 
 def r14_5(ctx, prog):
